@@ -8,13 +8,13 @@ Parts:
     non-increasing positions; props/imglib.py, coq/Wrapper/*) is added to PARTS by the integrator."""
 import copy
 
-from props import extlib
+from props import extlib, imglib
 
 ID = 'C03'
-COQ_PROPS = 'Props/C03.v'
+COQ_PROPS = ['Props/C03.v', 'Props/C03img.v']
 THEOREMS = ['C03_changed_class_den', 'C03_change_class_den', 'C03_change_class_total', 'C03_insert_k_den',
             'C03_merge_den', 'C03_nonslice', 'C03_total', 'C03_refuses',
-            'C03_total_refuted_N1', 'C03_total_refuted_N3', 'C03_total_refuted_N4']
+            'C03_total_refuted_N1', 'C03_total_refuted_N3', 'C03_total_refuted_N4', 'C03_merge_den_refuted_N11']
 ALLOWED_AXIOMS = []
 TABLES = ['t_classes', 't_ext_tol']
 RULE = ('see the parts: random merges whose inputs are restrictions of total functions on the output grid; '
@@ -33,8 +33,29 @@ ASSUMPTIONS = ['values: Python == coincides with structural equality (generators
                'along dim 4 -> KeyError), N3 (no slice dimension, merge along time/vector -> TypeError), N4 (result shape '
                'with a trailing singleton -> ValueError in the final simplify); C03_total_refuted_N1/N3/N4 show the model '
                'reproduces these exceptions; the random streams stay outside those regions, corpus/C03 covers them',
+               'the slice_dim argument, when given, equals the inputs\' own slice_dim: otherwise the real code builds invalid '
+               'results / raises TypeError (open finding N11, C03_merge_den_refuted_N11, corpus/C03/N11_*.json)',
                'key order of the result is not modelled (compared as unordered maps)',
                'image level (NiftiWrapper.from_sequence) is a separate part added by the integrator']
+
+
+def sig_n11(case, obs):
+    """Signature of the open finding N11: the slice_dim ARGUMENT differs from some input's own slice_dim (the
+    argument is honoured for the result only).  Never produced by the random streams (sdim_arg is None or the
+    inputs' slice_dim); covered by corpus/C03/N11_*.json."""
+    sd = case.get('sdim_arg')
+    if sd is not None and any(E['sdim'] != sd for E in case['exts']):
+        return 'merge/slice-dim-arg-mismatch'
+    return None
+
+
+class MergePart(extlib.MergePart):
+    """extlib.MergePart + the signature of N11."""
+    NAME = 'merge'
+
+    @staticmethod
+    def signature(case, obs, msg):
+        return sig_n11(case, obs) or extlib.MergePart.signature(case, obs, msg)
 
 
 def run_twice(case):
@@ -99,12 +120,15 @@ class TwiceMergePart:
 
     @staticmethod
     def signature(case, obs, msg):
-        return extlib.finding_sig_merge(case, obs) or \
+        return sig_n11(case, obs) or extlib.finding_sig_merge(case, obs) or \
             'twice/%s/dim%d/%s' % (extlib.shape_family(case['exts'][0]['shape']), case['dim'], extlib.sig_of_exc(obs))
 
     nontrivial = staticmethod(extlib.MergePart.nontrivial)
     shrink = staticmethod(extlib.MergePart.shrink)
 
 
-# [HOOK] image-level part: PARTS.append(imglib.WrapperMergePart) once props/imglib.py exists (integrator).
-PARTS = [extlib.MergePart, TwiceMergePart]
+# image-level part (NiftiWrapper.from_sequence: data stacking, affine, refusals) from props/imglib.py / coq/Wrapper/*
+PARTS = [MergePart, TwiceMergePart, imglib.for_property(imglib.ImgMergePart, 'C03')]
+THEOREMS = list(THEOREMS) + imglib.THEOREMS['Props/C03img.v']
+TRUSTED_BASE = list(TRUSTED_BASE) + imglib.TRUSTED_BASE
+ASSUMPTIONS = list(ASSUMPTIONS) + imglib.ASSUMPTIONS
